@@ -18,9 +18,15 @@ ops (1-D) and the tokens each one prints:
   gm / gM    Global_Minimum / Global_Maximum   -> v vf bmin bmax
   Q          the public member domain          -> d0 d1   (2-D: x0 x1 y0 y1)
   P f / U f  Set_Prefactor / Multiply          -> pf  (the prefactor the calls so far should have left)
+  F n        Save_Function(scratch file, n)    -> rows, then per row of the file: t:<x text> t:<v text> x vf vb   (the two fields of the row verbatim;
+             the argument the row belongs to = point #k of Linear_Space(domain[0], domain[1], n), computed by the harness itself; Interpolate(x) of a
+             fresh object with the same prefactor and of a new object).  The file is an OUTPUT of the object: its rows must follow the prefactor and
+             the history exactly as Interpolate does (the model prints `_` for the text fields; S4 compares them with the "%g" text of the values)
   C / A      continue on a copy-constructed / assigned copy (the original is kept)   -> nothing
   R          return to the object the last copy was taken from                       -> nothing
-ops (2-D): I x y / O x y -> v vf vb;  gm gM Q P U C A R as above.
+ops (2-D): I x y / O x y -> v vf vb;  gm gM Q P U C A R as above;
+  F nx ny / f nx   Save_Function(scratch file, nx, ny) / Save_Function(scratch file, nx) (default y_points = 0 = nx)
+             -> rows, then per row: t:<x text> t:<y text> t:<v text> x y vf vb
 Sessions (several objects alive in one process, holding possibly different tables; slots 0..7, slot 0 starts as an object of table 0
 and is the current one; every query goes to the current object and to fresh objects of the table that object should hold by now):
   s1 <T> {<ctor> <N> x.. <N> y..}*T <nops> op ..        s2 <T> {<ctor> <Nx> xs <Ny> ys f..}*T <nops> op ..
@@ -37,7 +43,7 @@ A call that ends the process makes the whole line EXIT.
 Every token is predicted by the model (the 2-D Global_* values by glob2 of C09_Model.v).
 Generator classes: plain tables (integer / logarithmic / random increments, 3..2000 points) with histories of far jumps, short correlated steps
 both ways, knots, the ladder of distances beside knots (1..1000 representable steps, 1e-16..1e-6 relative), domain ends and margins,
-verbatim repetitions of earlier arguments, copies; sessions in which a copy's source (or the copy) is afterwards queried elsewhere,
+verbatim repetitions of earlier arguments, copies, chains of Integrate / Local_* ranges that start exactly where the previous range ended (with prefactor calls in between); sessions in which a copy's source (or the copy) is afterwards queried elsewhere,
 assigned another table (of the same, a smaller or a larger size: with and without reuse of the storage), swapped, or destroyed before
 the other one is asked again, with arguments aimed at the segments that the cached indices of ALL live objects denote in the OTHER
 tables (where a look-up that consults state or storage of another object goes wrong); every constructor overload with unit arguments; tables on EXTREME scales (abscissae
@@ -46,7 +52,8 @@ scaled by 1e-322..1e295 through the raw table or the unit argument, neighbouring
 (`index-only`), 2-D histories evaluate the bilinear value throughout; `unit-collapse`: raw tables with neighbouring doubles and a unit
 argument x_dim whose rounding multiplication maps them to ONE double: the 1-D constructor (since the repair F45 of the former finding
 K-C09-2) and the 2-D constructor convert the units first and test the order on the converted abscissae, so both must end the process;
-an object that comes back from such a call, and any history dependence on it, is a violation."""
+an object that comes back from such a call, and any history dependence on it, is a violation; `save-function`: Save_Function files written in the
+middle of histories rich in Set_Prefactor / Multiply (also at low rate in every other class with numeric values)."""
 import bisect, math, struct
 from vcheck import Case, hx, flist, tokf
 
@@ -86,6 +93,11 @@ LEVEL_TEXT = ("Theorems (Coq, unbounded, on an abstract number type with only th
               "(corpus/C09/regressions.case: the constructor exits, model and implementation agree); the generator class unit-collapse keeps aiming at this region for 1-D and 2-D objects. "
               "Continuations (C09_continuation_history_free, _2d): not only one further query but every sequence of further calls is answered call by call as on a fresh object; "
               "C09_save_function_history_free is the instance for the Interpolate calls Save_Function makes, for every list of arguments. "
+              "Save_Function (1-D and 2-D) is treated as an OUTPUT of the object: linear_space / save_ops / save_ops2 of the model are the member calls it makes "
+              "(Interpolate at every point of Linear_Space over the domain, in order; 2-D: x outer, y inner, y_points = 0 standing for x_points). "
+              "C09_save_function_file_history_free / C09_save_function_2d_file_history_free: the rows written after any history are those a fresh object with the prefactor of the "
+              "history writes; C09_save_function_rows_scaled: row k written after ANY history holds exactly the prefactor of the history (Set_Prefactor / Multiply calls alone) times "
+              "the prefactor-free value of THE segment of the k-th point, for every point inside the domain; C09_save_function_keeps_prefactor: writing a file leaves that prefactor in place. "
               "Interpolation_2D::Global_Minimum / Global_Maximum are operations of the 2-D model now (covered by the 2-D history, bounds and session theorems): C09_global_extrema_2d_spec "
               "proves that the row-wise min_element / max_element scans end on the least / greatest entry of the whole Nx x Ny table (induction over rows), C09_global_extrema_2d_scaled that, "
               "when the multiplication by the prefactor is monotone or antitone (IEEE and real multiplication are), the result is the least / greatest of the products prefactor * f[i][j] "
@@ -95,7 +107,10 @@ LEVEL_TEXT = ("Theorems (Coq, unbounded, on an abstract number type with only th
               "and with the prefactor of the history times the value of a new object: exactly for Interpolate / operator() / Derivative / Local_* / Global_* and "
               "the 2-D value, within the a-priori summation error for Integrate; a new object is anchored to the unit-scaled table at tabulated abscissae, by its "
               "global extrema and by the public member domain). The spline evaluation formulas are parameters of the "
-              "model (C01/C08). Save_Function is a sequence of Interpolate calls plus file output and is covered as such a history, it is not run. "
+              "model (C01/C08). Save_Function is RUN by the check (ops F / f: any point count 0, 1, 2, .., fewer / as many / more points than knots, the default argument of the 2-D overload, "
+              "between Set_Prefactor / Multiply calls, on copies and in sessions): the harness reads the file back and S4 compares every row AS TEXT (six significant digits, what the library "
+              "writes) with the k-th point of Linear_Space over the domain and with the prefactor of the history times the value of a new object at that point, and with a fresh object's value; the model predicts "
+              "the row count, the points and the values (the text formatting itself is not modelled: a deviation below the sixth digit of a file entry is invisible in the file). "
               "NaN arguments: Locate tests std::isnan first and exits; C09_nan_argument_exits proves Exit in every state, and the history theorems "
               "hold for NaN arguments as well (both objects exit).")
 LEVEL_NOTE = ("Coq 8.16.1 kernel; all C09 theorems are axiom-free (closed under the global context); premises carried by the theorems: OrdLaws (strict total "
@@ -154,9 +169,38 @@ def locates_of(op, args):
     return []
 
 
-ARITY = {"L": 1, "I": 1, "O": 1, "D": 2, "d": 1, "G": 2, "m": 2, "M": 2, "gm": 0, "gM": 0, "Q": 0, "P": 1, "U": 1, "C": 0, "A": 0, "R": 0}
+def linspace(mn, mx, steps):
+    """Linear_Space(min, max, steps) of Utilities.cpp, written out: the arguments of the Interpolate calls Save_Function makes"""
+    if steps < 2 or mn == mx: return [mn]
+    step = (mx - mn) / (steps - 1.0)
+    return [mn + k * step for k in range(steps)]
+
+
+def save_args(two, o, a, xs, ys):
+    """the arguments of the Interpolate calls of F / f, in order (tuples)"""
+    if not two: return [(x,) for x in linspace(xs[0], xs[-1], a[0])]
+    ny = a[1] if (o == "F" and a[1] != 0) else a[0]
+    py = linspace(ys[0], ys[-1], ny)
+    return [(x, y) for x in linspace(xs[0], xs[-1], a[0]) for y in py]
+
+
+def save_ok(xs, n):
+    """no point of Linear_Space(domain, n) lies beyond the tolerated margin (the last one may exceed the upper end by rounding)"""
+    return all(zone(xs, x) != "exit" for x in linspace(xs[0], xs[-1], n))
+
+
+def nout_of(two, o, a):
+    """number of output tokens of one operation (F / f: it depends on the arguments)"""
+    if o in ("F", "f"):
+        c = lambda n: n if n >= 2 else 1
+        if not two: return 1 + 5 * c(a[0])
+        return 1 + 7 * c(a[0]) * c(a[1] if (o == "F" and a[1] != 0) else a[0])
+    return (NOUT2 if two else NOUT)[o]
+
+
+ARITY = {"F": 1, "L": 1, "I": 1, "O": 1, "D": 2, "d": 1, "G": 2, "m": 2, "M": 2, "gm": 0, "gM": 0, "Q": 0, "P": 1, "U": 1, "C": 0, "A": 0, "R": 0}
 NOUT = {"L": 2, "I": 3, "O": 3, "D": 3, "d": 3, "G": 3, "m": 4, "M": 4, "gm": 4, "gM": 4, "Q": 2, "P": 1, "U": 1, "C": 0, "A": 0, "R": 0}
-ARITY2 = dict(ARITY); ARITY2["I"] = 2; ARITY2["O"] = 2
+ARITY2 = dict(ARITY); ARITY2["I"] = 2; ARITY2["O"] = 2; ARITY2["F"] = 2; ARITY2["f"] = 1
 NOUT2 = dict(NOUT); NOUT2["Q"] = 4
 
 
@@ -202,7 +246,7 @@ def parse_case(line):
     for _ in range(nops):
         o = t[p]; p += 1; a = []
         for k in range(ar[o]):
-            a.append(int(t[p]) if ((o == "D" and k == 1) or o in LIFE) else tokf(t[p])); p += 1
+            a.append(int(t[p]) if ((o == "D" and k == 1) or o in LIFE or o in ("F", "f")) else tokf(t[p])); p += 1
         ops.append((o, a))
     return Parsed(kind, tables, ops)
 
@@ -259,6 +303,12 @@ class Machine:
         ob = self.obj()
         if o == "P": ob.pf = a[0]; return True
         if o == "U": ob.pf *= a[0]; return True
+        if o in ("F", "f"):                               # Save_Function: Interpolate at every point, in order
+            xs, ys, _tab = self.table()
+            for p in save_args(self.two, o, a, xs, ys):
+                for c, x in zip(ob.caches, p):
+                    if c.locate(x, kinds) is None: return False
+            return True
         if self.two:
             if o in ("I", "O"):
                 return ob.caches[0].locate(a[0], kinds) is not None and ob.caches[1].locate(a[1], kinds) is not None
@@ -384,7 +434,15 @@ def prefactor_op(rng):
     return ("U", [rng.choice(PF_MUL + [rng.uniform(0.1, 2)] * 3)])
 
 
-def gen_history(rng, xs, nops, with_exit, extra_pu=0.0, index_only=False):
+SAVE_COUNTS = [0, 1, 2, 2, 3, 3, 4, 5, 7, 10, 17, 33, 37, 64]
+
+
+def save_count(rng, n):
+    """the `points` argument of Save_Function: none / one / two points, fewer than, as many as and more than the table has knots"""
+    return min(150, rng.choice(SAVE_COUNTS + [n, n, n + 1, max(2, n - 1), 2 * n - 1, 2 * n - 1, rng.randint(2, 60)]))
+
+
+def gen_history(rng, xs, nops, with_exit, extra_pu=0.0, index_only=False, save=0.02):
     """xs: the table AFTER the unit scaling.  extra_pu: additional rate of Set_Prefactor / Multiply calls.
     index_only: only the calls whose answers do not involve the spline coefficients (Locate, Global_*, domain, prefactor calls, copies):
     for tables on scales where the Steffen coefficients leave the double range"""
@@ -397,12 +455,38 @@ def gen_history(rng, xs, nops, with_exit, extra_pu=0.0, index_only=False):
         return x
     while len(ops) < nops:
         if extra_pu and rng.random() < extra_pu: ops.append(prefactor_op(rng)); continue
+        if save and not index_only and rng.random() < save:                               # Save_Function: the file is an output; it leaves the cache at the upper end
+            k = save_count(rng, n)
+            if save_ok(xs, k):
+                ops.append(("F", [k])); cur = n - 2 if k >= 2 else 0
+            continue
         if pool and rng.random() < 0.07:                                                    # identical arguments again: the last one, or earlier ones
             last = next((a[0] for o, a in reversed(ops) if o in ("L", "I", "O", "D", "d")), pool[-1])
             for x in ([last] * rng.randint(1, 3) if rng.random() < 0.5 else [rng.choice(pool) for _ in range(rng.randint(1, 3))]):
                 j = ref_index(xs, x); cur = j if j is not None else cur
                 if index_only or rng.random() < 0.6: ops.append(("L", [x]))
                 else: ops.append((rng.choice(["I", "O", "d"]), [x]))
+            continue
+        if not index_only and rng.random() < 0.05:
+            # chained ranges: each Integrate / Local_* range starts exactly where the previous one ended (at its upper end, its lower end or its second
+            # argument), or repeats it verbatim / reversed, with Set_Prefactor / Multiply calls or point queries at the shared argument in between
+            k = cur; x = arg(k)
+            for _ in range(rng.randint(2, 4)):
+                k2 = min(n - 2, max(0, k + rng.choice([0, 0, 1, 1, 2, 3, 6, -1, -2, -5])))
+                x2 = arg(k2)
+                o = rng.choice(["G", "G", "G", "G", "m", "M"])
+                if o == "G": ops.append(("G", [x, x2] if rng.random() < 0.8 else [x2, x]))
+                else: ops.append((o, [min(x, x2), max(x, x2)]))
+                r = rng.random()
+                if r < 0.5: ops.append(prefactor_op(rng))
+                elif r < 0.65: ops.append((rng.choice(["I", "L", "d"]), [rng.choice([x, x2])]))
+                elif r < 0.72: ops.append((rng.choice(["C", "A"]), []))
+                r = rng.random()
+                if r < 0.15: pass                                                         # the same range again
+                elif r < 0.55: x, k = x2, k2
+                elif r < 0.85: x, k = (x2, k2) if x2 >= x else (x, k)                      # from the upper end
+                else: x, k = (x2, k2) if x2 <= x else (x, k)                               # from the lower end
+            j = ref_index(xs, x); cur = j if j is not None else cur
             continue
         mode = rng.random()
         if mode < 0.22: targets = [rng.randrange(n - 1)]                                   # far jump
@@ -455,7 +539,7 @@ def gen_history(rng, xs, nops, with_exit, extra_pu=0.0, index_only=False):
 
 def op_text(o, a):
     if o == "D": return f"D {hx(a[0])} {a[1]}"
-    if o in LIFE: return " ".join([o] + [str(k) for k in a])
+    if o in LIFE or o in ("F", "f"): return " ".join([o] + [str(k) for k in a])
     return " ".join([o] + [hx(v) for v in a])
 
 
@@ -674,18 +758,30 @@ def pick_ctor(rng, kinds, ndims, ok, units=None):
     return f"{kinds[0]}0", [-1.0] * ndims
 
 
-def case_1d(rng, n, nops, with_exit=False, tags=(), units=None, extra_pu=0.0):
+def case_1d(rng, n, nops, with_exit=False, tags=(), units=None, extra_pu=0.0, save=0.02):
     xs0, ys0 = make_table(rng, n)
     ctor, dims = pick_ctor(rng, ["v", "v", "r"], 2, lambda d: grid_ok(scaled(d[0], xs0)) and values_ok(scaled(d[0], xs0), scaled(d[1], ys0)), units)
     xs = scaled(dims[0], xs0)
-    ops = gen_history(rng, xs, nops, with_exit, extra_pu)
+    ops = gen_history(rng, xs, nops, with_exit, extra_pu, save=save)
     line = f"h1 {ctor} {flist(xs0)} {flist(ys0)} {len(ops)} " + " ".join(op_text(o, a) for o, a in ops)
     tg = ("1d",) + tuple(tags) + (("exit-last",) if with_exit else ())
     if dims[0] > 0 or dims[1] > 0: tg += ("units",)
     return Case(line, tg)
 
 
-def case_2d(rng, nx, ny, nops, with_exit=False, units=None, extra_pu=0.04):
+def save_op_2d(rng, xs, ys):
+    """F nx ny / f nx for Interpolation_2D (at most 200 rows), or None when a point of a grid would leave the tolerated margin"""
+    for _ in range(4):
+        kx = min(40, save_count(rng, len(xs)))
+        if rng.random() < 0.35: o, a, ky = "f", [kx], kx
+        else:
+            ky = min(40, rng.choice([0, 0, save_count(rng, len(ys))])); o, a = "F", [kx, ky]
+            if ky == 0: ky = kx
+        if max(kx, 1) * max(ky, 1) <= 200 and save_ok(xs, kx) and save_ok(ys, ky): return (o, a)
+    return None
+
+
+def case_2d(rng, nx, ny, nops, with_exit=False, units=None, extra_pu=0.04, save=0.02):
     xs0, _ = make_table(rng, nx); ys0, _ = make_table(rng, ny)
     tab = [math.sin(0.3 * i) * math.cos(0.2 * j) + 0.01 * i * j + rng.uniform(-0.1, 0.1) for i in range(len(xs0)) for j in range(len(ys0))]
     kinds = ["g", "g", "t"] if len(xs0) * len(ys0) <= 900 else ["g"]       # the model sorts the rows of the data table by insertion
@@ -701,7 +797,14 @@ def case_2d(rng, nx, ny, nops, with_exit=False, units=None, extra_pu=0.04):
         r = rng.random()
         if r < extra_pu + 0.01: ops.append(prefactor_op(rng))
         elif r < extra_pu + 0.05: ops.append((rng.choice(["C", "A", "R"]), []))
-        elif r < extra_pu + 0.07: ops.append((rng.choice(["gm", "gM", "gm", "gM", "Q"]), []))
+        elif r < extra_pu + 0.07:
+            g = rng.choice(["gm", "gM", "gm", "gM", "Q"])
+            # the model scans the whole table as lists (several seconds on 400 000 entries): a few Global_* calls per history on the largest tables
+            sz = len(xs) * len(ys)
+            if g == "Q" or sz <= 20000 or sum(1 for o, _a in ops if o in ("gm", "gM")) < (4 if sz <= 100000 else 1): ops.append((g, []))
+        elif r < extra_pu + 0.07 + save and len(xs) * len(ys) <= 6000:
+            sv = save_op_2d(rng, xs, ys)
+            if sv is not None: ops.append(sv)
         ops.append((rng.choice(["I", "I", "I", "O"]), [ax[k], ay[k]]))
     if with_exit:
         x = edge_point(rng, xs, allow_exit=True)
@@ -874,6 +977,9 @@ def case_session_2d(rng, nx, ny, nblocks):
             r = rng.random()
             if r < 0.05: out.append(prefactor_op(rng))
             elif r < 0.08: out.append((rng.choice(["gm", "gM", "Q"]), []))
+            elif r < 0.10:
+                sv = save_op_2d(rng, xs, ys)
+                if sv is not None: out.append(sv)
             out.append((rng.choice(["I", "I", "I", "O"]), [x, y]))
         return out[:max(k, 1)]
     ops = gen_session(rng, tables, nblocks, True, burst)
@@ -905,6 +1011,11 @@ def generate(rng, tier):
         cs.append(case_1d(rng, rng.choice(sizes_small), rng.choice([8, 15, 25, 40]), units=rng.choice(["all", "all", "some"]), extra_pu=0.12, tags=("ctor-units",)))
     for _ in range(150 if big else 24):
         cs.append(case_2d(rng, rng.choice([3, 4, 7, 20]), rng.choice([3, 5, 9, 25]), rng.choice([10, 30, 60]), units=rng.choice(["all", "some"]), extra_pu=0.12))
+    # Save_Function: the file written is an output of the object; histories rich in Set_Prefactor / Multiply with files written in between
+    for _ in range(300 if big else 36):
+        cs.append(case_1d(rng, rng.choice(sizes_small), rng.choice([8, 15, 25]), units=rng.choice([None, None, "all", "some"]), extra_pu=0.15, save=0.12, tags=("save-function",)))
+    for _ in range(120 if big else 14):
+        cs.append(case_2d(rng, rng.choice([3, 4, 7, 20]), rng.choice([3, 5, 9, 25]), rng.choice([10, 30]), units=rng.choice([None, "all", "some"]), extra_pu=0.15, save=0.12))
     # tables on extreme scales (tiny / huge, through the raw table or the unit argument), neighbouring doubles at a large offset, subnormal abscissae
     for _ in range(700 if big else 70):
         cs.append(case_1d_ext(rng, rng.choice(sizes_small + [100, 257]), rng.choice([15, 25, 40, 80, 150]), with_exit=rng.random() < 0.06))
@@ -1032,8 +1143,8 @@ def predicates(c, io):
             return [(f"{kind}:no-exit", "a call with an argument outside the tolerated margin (or a reversed range), or a constructor call with abscissae that are not strictly increasing after the unit conversion, returned instead of ending the process")]
         # an object that should not exist: report it, then examine its answers like any other object's
         out.append((f"{kind}:constructor-accepts-repeated-abscissa", f"the constructor returned an object for table {bad_ctor[0]} although its abscissae are not strictly increasing after the unit conversion (the unit argument maps neighbouring abscissae to one double): " + " ".join(hx(v) for v in P.tables[bad_ctor[0]][0][:12])))
-    t = io.split(); two = P.two; nout = NOUT2 if two else NOUT
-    need = sum(nout[o] for o, a in ops)
+    t = io.split(); two = P.two
+    need = sum(nout_of(two, o, a) for o, a in ops)
     if len(t) != need: return [(f"{kind}:shape", f"{len(t)} output tokens, expected {need}")]
     sfx = "2" if two else ""
     m = Machine(two, P.tables); p = 0
@@ -1046,7 +1157,7 @@ def predicates(c, io):
         xs, ys, tab = m.table()
         where = f"op #{n_op} {op_text(o, a)}" + (f" on the object in slot {m.cur} (table {m.obj().t})" if P.session else "")
         m.query(o, a, [])
-        v = t[p:p + nout[o]]; p += nout[o]
+        v = t[p:p + nout_of(two, o, a)]; p += nout_of(two, o, a)
         _check_call(out, kind, two, sfx, o, a, v, where, xs, ys, tab, m.obj().pf, stats[m.obj().t])
         if len(out) > 4: break
     return out
@@ -1068,6 +1179,8 @@ def _check_call(out, kind, two, sfx, o, a, v, where, xs, ys, tab, pf, stat):
             d = [tokf(w) for w in v]; exp = [xs[0], xs[-1]] + ([ys[0], ys[-1]] if two else [])
             if any(not same_bits(x, y) for x, y in zip(d, exp)):
                 out.append((f"Q{sfx}:domain", f"{where}: domain is {d!r}, the ends of the (unit-scaled) abscissae are {exp!r}"))
+        elif o in ("F", "f"):
+            _check_save(out, two, sfx, o, a, v, where, xs, ys, pf)
         elif not two and o == "L":
             j, jf = int(v[0]), int(v[1]); jr = ref_index(xs, a[0])
             if j != jf: out.append(("L:history", f"{where}: Locate returns {j} on the used object and {jf} on a fresh one"))
@@ -1114,6 +1227,47 @@ def _check_call(out, kind, two, sfx, o, a, v, where, xs, ys, tab, pf, stat):
                     if o in ("gm", "gM") and (bmin != fmin or bmax != fmax):
                         out.append((f"{o}{sfx}:table", f"{where}: a new object has global extrema {bmin!r}, {bmax!r}; the (unit-scaled) table has {fmin!r}, {fmax!r}"))
     if region: out[n_before:] = [(sg, msg + " [the unit argument collapsed neighbouring abscissae: the table holds a repeated abscissa]") for sg, msg in out[n_before:]]
+
+
+def text_of(x):
+    """what `stream << x` writes for a double (default flags: precision 6, %g)"""
+    return "%g" % x
+
+
+def _text_is(text, x):
+    if math.isnan(x): return text in ("nan", "-nan")
+    return text == text_of(x)
+
+
+def _check_save(out, two, sfx, o, a, v, where, xs, ys, pf):
+    """Save_Function: the file has one row per point of Linear_Space(domain, points) (2-D: per pair, x outer), and a row holds the text of its
+    argument(s) and the text of what Interpolate returns there: prefactor times the value of a new object (= what a fresh object with the same
+    prefactor returns), whatever the history was.  Compared as TEXT (six significant digits, as the library writes them)."""
+    args = save_args(two, o, a, xs, ys); na = 2 if two else 1; W = 2 * na + 3
+    try: rows = int(v[0])
+    except ValueError: out.append((f"F{sfx}:shape", f"{where}: row count {v[0]}")); return
+    if rows != len(args):
+        out.append((f"F{sfx}:rows", f"{where}: the file has {rows} rows, Linear_Space of the domain has {len(args)} points")); return
+    for k, arg in enumerate(args):
+        r = v[1 + k * W:1 + (k + 1) * W]
+        texts = r[:na + 1]; nums = [tokf(w) for w in r[na + 1:]]
+        if len(r) != W or any(not w.startswith("t:") for w in texts) or any(x is None for x in nums):
+            out.append((f"F{sfx}:shape", f"{where}: row {k}: output {r}")); return
+        texts = [w[2:] for w in texts]
+        if "!malformed-row" in texts:
+            out.append((f"F{sfx}:row-format", f"{where}: row {k} of the file does not have {na + 1} tab-separated fields")); return
+        for i, xa in enumerate(arg):
+            if not same_bits(nums[i], xa):
+                out.append((f"F{sfx}:domain", f"{where}: row {k}: the harness computes the point {nums[i]!r} from the member domain, the ends of the (unit-scaled) abscissae give {xa!r}")); return
+            if not _text_is(texts[i], xa):
+                out.append((f"F{sfx}:abscissa", f"{where}: row {k} of the file holds the argument {texts[i]}, point #{k} of Linear_Space(domain) is {xa!r} (written {text_of(xa)})")); return
+        vf, vb = nums[-2], nums[-1]
+        if math.isnan(vb) or math.isnan(vf): continue
+        exp = pf * vb
+        if not _text_is(texts[-1], exp):
+            out.append((f"F{sfx}:prefactor", f"{where}: row {k} of the file (argument {' '.join(repr(w) for w in arg)}) holds the value {texts[-1]}; prefactor {pf!r} times the value {vb!r} of a new object is {exp!r} (written {text_of(exp)})")); return
+        if not _text_is(texts[-1], vf):
+            out.append((f"F{sfx}:history", f"{where}: row {k} of the file (argument {' '.join(repr(w) for w in arg)}) holds the value {texts[-1]}; a fresh object with the same prefactor returns {vf!r} (written {text_of(vf)})")); return
 
 
 # ---------------------------------------------------------------- extra stage: the model's own trace of search kinds
